@@ -1751,6 +1751,19 @@ class EEA:
                     if isinstance(g_.target, ast.Name) and g_.target.id == k.id and isinstance(g_.iter, ast.Name):
                         snap = g_.iter.id
             cur = self.prog.parents.get(cur)
+        # `for k in [k for k in D if ...]: D.pop(k)` with no suspension point in the loop: the keys were taken from D
+        # in this very step of the task (A1), whoever else removes from D
+        for n in self.I.own_nodes(f):
+            if isinstance(n, ast.For) and isinstance(n.target, ast.Name) and n.target.id == k.id and isinstance(n.iter, (ast.ListComp, ast.SetComp)) and len(n.iter.generators) == 1 and any(x is e for x in ast.walk(n)):
+                g0 = n.iter.generators[0]
+                it0 = g0.iter
+                tgt0 = g0.target.elts[0] if isinstance(g0.target, ast.Tuple) and g0.target.elts else g0.target
+                src_ok = (isinstance(it0, ast.Call) and isinstance(it0.func, ast.Attribute) and it0.func.attr in ("items", "keys") and norm(it0.func.value) == d_txt) or norm(it0) == d_txt
+                from .cfg import has_await
+
+                pops = [x for b in n.body for x in ast.walk(b) if isinstance(x, ast.Call) and isinstance(x.func, ast.Attribute) and x.func.attr in ("pop", "popitem", "clear") and norm(x.func.value) == d_txt]
+                if src_ok and norm(n.iter.elt) == norm(tgt0) and not has_await(n) and pops == [e]:
+                    return True
         for n in self.I.own_nodes(f):
             if snap is not None:
                 break
